@@ -10,6 +10,7 @@ Violation (libFuzzer then stops with a crash).  Campaigns are pinned only
 approximately by -seed/-runs; the saved failing case is the reproducible
 unit (it is re-run through check_case in a fresh process by the runner).
 """
+import asyncio
 import json
 import os
 import sys
@@ -64,6 +65,8 @@ def main():
                 raise
             except core.Abort as a:
                 raise Violation(a.kind, a.detail) from None
+            except asyncio.CancelledError:
+                raise Violation('cancellation-escaped', '') from None
             except Exception as e:
                 v = core.as_violation(e)
                 if v is None:
